@@ -165,7 +165,7 @@ func TestVerifPersist(t *testing.T) {
 	tr := vopen(t, "persist")
 	defer tr.close()
 	r := &vrng{s: vseed()*179424673 + 59}
-	nstreams := vscale(6, 16)
+	nstreams := vscale(6, 12)
 	if os.Getenv("VERIF_PERSIST") == "restore-only" {
 		nstreams = vscale(40, 400)
 	}
@@ -285,7 +285,7 @@ func TestVerifPersist(t *testing.T) {
 				}
 			}
 		}
-		ndam := vscale(250, 1200)
+		ndam := vscale(250, 800)
 		if light {
 			ndam = 0
 		}
@@ -313,6 +313,36 @@ func TestVerifPersist(t *testing.T) {
 				ver = version + 1
 			}
 			vars = append(vars, variant{"damaged", d, ver, size, 0, false})
+		}
+		// damage that keeps the framing intact: two bytes of one block header moved by one (a gob field delta shifted onto
+		// the neighbouring field makes a field "absent", e.g. the checksum), all pairs for the first three streams of the thorough tier, a sample otherwise
+		if !light {
+			bounds := vblockBoundaries(clean)
+			if len(bounds) > 3 {
+				bounds = bounds[:3]
+			}
+			for _, b := range append([]int{0}, bounds...) {
+				for i := 0; i < 14; i++ {
+					for j := i + 1; j < 14; j++ {
+						for sg := 0; sg < 4; sg++ {
+							if !(vthorough() && c < 3) && !r.chance(6) {
+								continue
+							}
+							if b+j >= len(clean) {
+								continue
+							}
+							d := append([]byte(nil), clean...)
+							d[b+i] += byte(1 - 2*(sg&1))
+							d[b+j] += byte(1 - (sg & 2))
+							// and something in the payload of that block
+							if b+40 < len(d) {
+								d[b+24+r.intn(16)] ^= 0x20
+							}
+							vars = append(vars, variant{"damaged", d, version, size, 0, false})
+						}
+					}
+				}
+			}
 		}
 		savedByKey := map[int]vsaved{}
 		for _, sv := range saved {
